@@ -13,7 +13,8 @@ from . import cpml_api as P
 from . import yee_api as Y
 from .common import f2h, h2f
 
-RULE = ("K: scenes with PML on all six faces (uniform 22x7x6 and non-uniform 22x6x5 cells, per-face thickness 1..6, "
+RULE = ("K: scenes with PML on all six faces (uniform 22x7x6) or on a random subset of >= 2 faces (non-uniform 22x6x5 "
+        "cells), per-face thickness 1..6, "
         "default grading or random sigma/kappa/alpha start/end/order incl. sigma_start=alpha_start=0 (0/0 -> nan_to_num) "
         "and kappa != 1), plus PMLs placed directly with place_on_grid on the long axis with thickness 1..20 on both "
         "directions: (1) pml_a/b/inv_kappa E and H arrays vs model `coef` (profile, expm1, nan_to_num) and default "
@@ -148,13 +149,19 @@ def check_layer(ctx, c, sc, p, given, label):
     ctx.case(sample=None, nontrivial=nt if (given or edges is not None or L != 10) else None, coef_L=L,
              coef_dir=p.direction, coef_axis=int(p.axis), coef_grid="nonuniform" if edges is not None else "uniform",
              coef_grading="default" if not given else "custom", placed=label)
-    d = layer_oracle(impl, plus, L, edges, g, dt, eps0)
+    d = layer_oracle(impl, plus, L, edges, g, dt, eps0, default_sigma_end="sigma_end" not in given)
     ctx.impl_property_evals += 1
     if d:
         ctx.violation(case, d)
 
 
-def layer_oracle(impl, plus, L, edges, g, dt, eps0):
+def layer_oracle(impl, plus, L, edges, g, dt, eps0, default_sigma_end=False):
+    if default_sigma_end:
+        from fdtdx import constants
+        thick = (L * 50e-9) if edges is None else float(edges[-1] - edges[0])
+        want = -(g[2] + 1.0) * math.log(1e-6) / (2.0 * float(constants.eta0) * thick)
+        if not abs(g[1] - want) <= 1e-9 * abs(want):
+            return f"default sigma_end {g[1]!r} is not -(order+1) ln(1e-6) / (2 eta0 thickness) = {want!r}"
     ref, _ = np_coefs(plus, L, edges, g, dt, eps0)
     for name, a, b in zip(("a_E", "b_E", "inv_kappa_E", "a_H", "b_H", "inv_kappa_H"), impl, ref):
         if a.shape != b.shape or not np.allclose(a, b, rtol=1e-9, atol=1e-12):
@@ -392,7 +399,7 @@ def property_fails(inp):
         lo, hi = p.grid_slice_tuple[p.axis]
         e_all = edges_of(c, p.axis)
         d = layer_oracle(P.coef_arrays(p), p.direction == "+", int(p.thickness), None if e_all is None else e_all[lo:hi + 1],
-                         grading_of(p), dt, eps0)
+                         grading_of(p), dt, eps0, default_sigma_end="sigma_end" not in c["params"].get(p.name[4:], {}))
         if d:
             return f"{p.name}: {d}"
     return None
